@@ -597,7 +597,11 @@ func main() {
 		}
 		return out
 	}
-	if !thorough {
+	// the quick plan: a closed slice that touches every dimension (handle
+	// configurations, models, receiver prefix, finisher kinds). Thorough runs it
+	// FIRST and the big products afterwards, smallest first, so that a run cut by
+	// its deadline has still covered every dimension.
+	addQuickPlan := func() {
 		// classes that differ in how a bound value is converted for the driver
 		convClasses := []pg.Class{pg.CStr, pg.CNilPtr, pg.CNullInvalid, pg.CBytes, pg.CSlice2, pg.CExpr, pg.CDValuerSlice, pg.CGValuer, pg.CSub, pg.CByteArray, pg.CTime}
 		addItems(pg.Shapes([]int{pg.ModelT}, pg.Seqs(all, 0, 1), pg.FinsFor(false, true)), 1, convClasses, 0)
@@ -617,24 +621,25 @@ func main() {
 		// update/delete ones on the handles without AllowGlobalUpdate) and a model chosen cyclically
 		addItems(pg.CyclicShapes(all3, pg.Seqs(all2, 2, 2), guarded(pg.FinsFor(false, true)), 3), 0, nil, 1)
 		addItems(pg.CyclicShapes(all3, pg.Seqs(all2, 2, 2), pg.FinsFor(false, true), 6), 0, nil, 0)
-		plan = fmt.Sprintf("<=1 call over %d calls x %d finishers x 3 models (model T with <=1 slot deviating over 11 conversion-relevant classes of the %d path classes, S and U with default classes); every 2-call sequence with 6 of all finishers and a model chosen cyclically (pairwise cover of call x call, call x finisher, call x model; %d finishers), default classes", len(all), len(pg.FinsFor(false, true)), len(pg.PathClasses), len(pg.FinsFor(false, true)))
-	} else {
+
+	}
+	addQuickPlan()
+	plan = fmt.Sprintf("<=1 call over %d calls x %d finishers x 3 models (model T with <=1 slot deviating over 11 conversion-relevant classes of the %d path classes, S and U with default classes); every 2-call sequence with 6 of all finishers and a model chosen cyclically (pairwise cover of call x call, call x finisher, call x model; %d finishers), default classes", len(all), len(pg.FinsFor(false, true)), len(pg.PathClasses), len(pg.FinsFor(false, true)))
+	if thorough {
 		addItems(pg.Shapes(both, pg.Seqs(all, 0, 1), pg.FinsFor(false, true)), 1, nil, 0)
 		for lg := 1; lg <= 3; lg++ {
 			addItems(pg.Shapes(both, pg.Seqs(all, 0, 1), pg.FinsFor(false, true)), 1, pg.PathClasses, 10*lg)
 		}
 		addItems(pg.Shapes(both, pg.Seqs(all, 0, 1), guarded(pg.FinsFor(false, true))), 1, pg.PathClasses, 1)
-		addItems(pg.Shapes(both, pg.Seqs(all, 0, 1), guarded(pg.FinsFor(false, true))), 0, nil, 2)
-		addItems(pg.Shapes(both, pg.Seqs(all2, 2, 2), guarded(pg.FinsFor(false, true))), 0, nil, 1)
-		addItems(pg.Shapes(both, pg.Seqs(all2, 2, 2), pg.FinsFor(false, true)), 0, nil, 0)
-		addItems(pg.Shapes(both, pg.Seqs(all2, 2, 2), pg.FinsFor(true, true)), 1, pg.PathClasses, 0)
-		addItems(pg.Shapes([]int{pg.ModelS}, pg.Seqs(core, 3, 3), pg.FinsFor(true, true)), 0, nil, 0)
 		addItems(pg.Shapes([]int{pg.ModelU}, pg.Seqs(all, 0, 1), pg.FinsFor(false, true)), 1, pg.PathClasses, 0)
 		addItems(pg.Shapes([]int{pg.ModelU}, pg.Seqs(all2, 2, 2), pg.FinsFor(true, true)), 0, nil, 0)
-		addItems(pg.Shapes(all3, pg.Seqs(all, 1, 1), pg.FinsFor(false, true)), 0, nil, 100)
-		addItems(pg.Shapes(both, pg.Seqs(all2, 2, 2), pg.FinsFor(false, true)), 0, nil, 100)
+		addItems(pg.Shapes([]int{pg.ModelS}, pg.Seqs(core, 3, 3), pg.FinsFor(true, true)), 0, nil, 0)
 		addItems(pg.Shapes(both, pg.Seqs(all2, 2, 2), pg.FinsFor(true, true)), 0, nil, 200)
-		plan = fmt.Sprintf("<=1 call over %d calls x %d finishers x 2 models with <=1 slot deviating over all %d classes; 2 calls x all finishers x 2 models with default classes and x %d representative finishers with <=1 slot deviating over %d path classes; 3 calls over the reduced alphabet of %d calls x representative finishers x model S", len(all), len(pg.FinsFor(false, true)), int(pg.NumClasses), len(pg.FinsFor(true, true)), len(pg.PathClasses), len(core))
+		addItems(pg.Shapes(both, pg.Seqs(all2, 2, 2), guarded(pg.FinsFor(false, true))), 0, nil, 1)
+		addItems(pg.Shapes(both, pg.Seqs(all2, 2, 2), pg.FinsFor(false, true)), 0, nil, 0)
+		addItems(pg.Shapes(both, pg.Seqs(all2, 2, 2), pg.FinsFor(false, true)), 0, nil, 100)
+		addItems(pg.Shapes(both, pg.Seqs(all2, 2, 2), pg.FinsFor(true, true)), 1, pg.PathClasses, 0)
+		plan = "thorough = the quick plan first [" + plan + "], then, smallest first: <=1 call x all finishers x models T,S with <=1 slot deviating over all classes (logger / no-AllowGlobalUpdate / model U variants over the path classes); model U x 2 calls x representative finishers; 3 calls over the reduced alphabet x representative finishers x model S; every 2-call sequence x representative finishers with both calls on the receiver; x update/delete finishers without AllowGlobalUpdate; x all finishers x models T,S (default classes), the same with the first call on the receiver, and x representative finishers with <=1 slot deviating over the path classes"
 	}
 
 	st := &stats{}
@@ -687,7 +692,9 @@ func main() {
 	}
 	wg.Wait()
 
-	if run.NumViolations() == 0 {
+	// non-vacuity floors judge a COMPLETE enumeration; a run cut by its deadline
+	// (or stopped after too many violations) reports exhaustive:false instead
+	if run.NumViolations() == 0 && timedOut == 0 && tooMany == 0 {
 		if st.compared < 2000 {
 			run.HarnessError("vacuous: only %d programs whose real statement was compared with the DryRun statement", st.compared)
 		}
